@@ -828,6 +828,8 @@ def oracle(case, obs):
         if g == "radius" and name.startswith("Cap_") and hard:
             continue
         return f"equation group {g!r} ({name}) is not one of the legaliser's documented groups"
+    if case.get("nostog") or not case.get("configs"):
+        return None
     net = observed_net(case, obs)
     tau = F(1, 100) * min(net["dw"], net["dh"]) / len(net["modules"])
     for cfg, oc in zip(case.get("configs", []), obs["configs"]):
@@ -974,6 +976,32 @@ def gen_optree(rng, depth):
     return [op, a, b]
 
 
+def optree_exact(t):
+    """Simulates the constant folding in exact arithmetic; returns (constant value or None, ok) where ok says
+    that every folded constant is a binary64 number (so that implementation and model agree exactly)."""
+    k = t[0]
+    if k in ("c", "n"):
+        return F(t[1]), True
+    if k == "v":
+        return None, True
+    if k == "sqrt":
+        _, ok = optree_exact(t[1])
+        return None, ok
+    a, oka = optree_exact(t[1])
+    b, okb = optree_exact(t[2])
+    if not (oka and okb):
+        return None, False
+    if a is None or b is None:
+        return None, True
+    try:
+        v = {"add": lambda: a + b, "sub": lambda: a - b, "mul": lambda: a * b, "div": lambda: a / b,
+             "pow": lambda: a ** int(b)}[k]()
+    except (ZeroDivisionError, ValueError, OverflowError):
+        return None, False
+    ok = abs(v) < 2 ** 40 and F(float(v)) == v
+    return v, ok
+
+
 def build_optree(t, mk_const, var):
     import operator
     from tools.legalfloor.expression_tree import sqrt as et_sqrt
@@ -1006,11 +1034,29 @@ def g_optree(t):
 def gen_case(rng, nconf):
     case = gen_netlist(rng)
     case["exact"] = case["q"] != 10
-    case["ops"] = [gen_optree(rng, 3) for _ in range(6)]
+    case["ops"] = []
+    while len(case["ops"]) < 6:
+        t = gen_optree(rng, 3)
+        if optree_exact(t)[1]:
+            case["ops"].append(t)
+    if rng.random() < 0.04:
+        # outside the property's domain (not an orthogon): a soft module with a detached rectangle gets no roles
+        # from create_stog; netlist_to_utils then takes the first rectangle as trunk and files the others as north
+        # branches.  Only the equation generation is compared on these.
+        soft = [m for m in case["modules"] if m["kind"] == "soft" and len(m["rects"]) > 1]
+        if soft:
+            m = rng.choice(soft)
+            r = m["rects"][-1]
+            m["rects"][-1] = [r[0] + F(1, 2), r[1] + F(1, 2), r[2], r[3]]
+            case["nostog"] = True
+            case["configs"] = []
+            return case
     return add_configs(rng, case, nconf)
 
 
 def dist_key(case):
+    if case.get("nostog"):
+        return "not-an-orthogon (structure only)"
     kinds = "".join(sorted({m["kind"][0] for m in case["modules"]}))
     nb = max(len(m["rects"]) for m in case["modules"])
     return f"mods={len(case['modules'])} kinds={kinds} maxrects={nb}"
